@@ -127,6 +127,7 @@ func C15(e *core.Env) int {
 		events int
 		ok     bool
 		dir    string
+		buildable bool
 	}
 	results := make([]result, len(scens))
 	core.Parallel(len(scens), func(i int) {
@@ -172,11 +173,11 @@ func C15(e *core.Env) int {
 		pkgIDs := map[string]map[string]bool{}
 		existingAt := map[string]string{}
 		var formsKey []string
+		// pass A: where does every converter write?
+		settings := make([]string, len(s.convs))
 		for k, c := range s.convs {
 			declDir := filepath.Join(dir, c.pkgDir)
-			pkgName := normalisePkg(filepath.Base(c.pkgDir))
 			fname := strings.ToLower(c.name)
-			var setting string
 			switch c.fileForm {
 			case "default":
 				if c.vars {
@@ -186,60 +187,66 @@ func C15(e *core.Env) int {
 					c.outPath = filepath.Join(declDir, "generated", "generated.go")
 				}
 			case "rel":
-				setting = "./Out-Dir9/" + fname + ".go"
+				settings[k] = "./Out-Dir9/" + fname + ".go"
 				c.outPath = filepath.Join(declDir, "Out-Dir9", fname+".go")
 			case "parent":
-				setting = "../shared/" + fname + ".go"
+				settings[k] = "../shared/" + fname + ".go"
 				c.outPath = filepath.Join(filepath.Dir(declDir), "shared", fname+".go")
 			case "abs":
 				c.outPath = filepath.Join(dir, "absout", "x"+fmt.Sprint(k), fname+".go")
-				setting = c.outPath
+				settings[k] = c.outPath
 			case "cwd":
-				setting = "@cwd/cwdout/" + fname + ".go"
+				settings[k] = "@cwd/cwdout/" + fname + ".go"
 				c.outPath = filepath.Join(workdir, "cwdout", fname+".go")
 			case "global":
 				c.outPath = filepath.Join(declDir, "out", "gen.go")
 			case "same":
-				setting = "./" + fname + "_gen.go"
+				settings[k] = "./" + fname + "_gen.go"
 				c.outPath = filepath.Join(declDir, fname+"_gen.go")
 			case "sharedwith0":
 				c0 := s.convs[0]
 				c.outPath = c0.outPath
 				rel, _ := filepath.Rel(declDir, c0.outPath)
-				setting = "./" + rel
-				c.existing = c0.existing
+				settings[k] = "./" + rel
 				if !s.conflict {
 					c.pkgForm = c0.pkgForm
+				} else {
+					c.pkgForm = "pathname"
 				}
 			}
-			if setting != "" {
-				c.lines = append(c.lines, "output:file "+setting)
+		}
+		// per output directory: the package that already exists there (one decision per directory) and one custom name
+		isDeclDir := map[string]string{}
+		for _, pd := range pkgDirs {
+			isDeclDir[filepath.Join(dir, pd)] = normalisePkg(filepath.Base(pd))
+		}
+		for _, c := range s.convs {
+			outDir := filepath.Dir(c.outPath)
+			if n, ok := isDeclDir[outDir]; ok {
+				existingAt[outDir] = n
+			} else if _, ok := existingAt[outDir]; !ok && c.existing != "" {
+				existingAt[outDir] = c.existing
+			}
+		}
+		dirClauses := map[string]map[string]bool{}
+		// pass B: settings, expected clause
+		for k, c := range s.convs {
+			declDir := filepath.Join(dir, c.pkgDir)
+			pkgName := normalisePkg(filepath.Base(c.pkgDir))
+			if settings[k] != "" {
+				c.lines = append(c.lines, "output:file "+settings[k])
 			}
 			outDir := filepath.Dir(c.outPath)
 			relOut, _ := filepath.Rel(root, outDir)
 			importPath := "vcase/" + filepath.ToSlash(relOut)
-			custom := "cust" + strings.ToLower(c.name)
-			if c.fileForm == "sharedwith0" && !s.conflict {
-				custom = "cust" + strings.ToLower(s.convs[0].name)
-			}
+			// one custom name per directory (several names in one directory would be the user's mistake)
+			custom := "cust" + normalisePkg(filepath.Base(outDir)) + fmt.Sprint(len(outDir)%7)
 			if c.fileForm == "sharedwith0" && s.conflict {
-				c.pkgForm = "pathname"
+				custom += "other"
 			}
 			same := outDir == declDir
-			if same && c.existing == "" {
-				existingAt[outDir] = pkgName
-			}
-			if c.existing != "" && !same {
-				if prev, ok := existingAt[outDir]; ok {
-					c.existing = prev
-				} else {
-					existingAt[outDir] = c.existing
-				}
-			} else if same {
-				c.existing = pkgName
-			} else if prev, ok := existingAt[outDir]; ok {
-				c.existing = prev
-			}
+			_ = pkgName
+			c.existing = existingAt[outDir]
 			given := ""
 			switch c.pkgForm {
 			case "path":
@@ -259,16 +266,20 @@ func C15(e *core.Env) int {
 			default:
 				c.clause = normalisePkg(filepath.Base(outDir))
 			}
-			if same && given != "" && given != pkgName {
-				// a second package name inside an existing package directory cannot compile; not judged for build
-				c.clause = given
-			}
+			_ = same
 			c.pkgID = c.clause
 			if pkgIDs[c.outPath] == nil {
 				pkgIDs[c.outPath] = map[string]bool{}
 			}
 			pkgIDs[c.outPath][c.pkgForm+"|"+c.clause] = true
 			expected[c.outPath] = c.clause
+			if dirClauses[outDir] == nil {
+				dirClauses[outDir] = map[string]bool{}
+			}
+			dirClauses[outDir][c.clause] = true
+			if c.existing != "" {
+				dirClauses[outDir][c.existing] = true
+			}
 			formsKey = append(formsKey, c.fileForm+"/"+c.pkgForm+"/"+fmt.Sprint(c.existing != "")+"/"+fmt.Sprint(c.vars))
 			sb := srcs[c.pkgDir]
 			fmt.Fprintf(sb, "type In%s struct{ V int }\ntype Out%s struct{ V int }\n\n", c.name, c.name)
@@ -286,6 +297,14 @@ func C15(e *core.Env) int {
 				fmt.Fprintf(sb, "type %s interface {\n\tConvert(source In%s) Out%s\n}\n\n", c.name, c.name, c.name)
 			}
 		}
+		// the module can only build when every output directory ends up with ONE package name
+		buildable := true
+		for _, cl := range dirClauses {
+			if len(cl) > 1 {
+				buildable = false
+			}
+		}
+		res.buildable = buildable
 		files := map[string]string{}
 		for pd, sb := range srcs {
 			files[pd+"/"+declFile(s.name, pd)] = sb.String()
@@ -452,7 +471,7 @@ func C15(e *core.Env) int {
 		}
 		for i, s := range scens {
 			txt, ok := perScen[s.name]
-			if !ok || !results[i].ok || usesNameOnly(s.convs) {
+			if !ok || !results[i].ok || usesNameOnly(s.convs) || !results[i].buildable {
 				continue
 			}
 			rep.Violation(&core.Viol{Kind: "build", Case: s.name, Summary: "module does not build after a successful run: " + compileClass(txt), Detail: txt, Dir: results[i].dir})
